@@ -6,3 +6,20 @@ LEAN_TB = [
     "correspondence check: harness (real code, in process) vs sonicdrv (model acceptor + property monitor)",
 ]
 TRANSLATOR_TB = "tools/go2lean (Go->Lean translator for first-order integer code), itself exercised by the correspondence check"
+
+# tie T for the websocket frame header (C07, C15, C16): Sonic/Gen/WsFrameBits.lean, Lemmas/WsFrameTie.lean, Props/WsFrameTie.lean
+WSFRAME_TB = [
+    TRANSLATOR_TB + "; for C07/C15/C16 it regenerates Sonic/Gen/WsFrameBits.lean on every run (tools/go2lean/wsfext.go) from "
+    "codec/websocket/frame.go (ExtendedPayloadLengthBytes, PayloadLength, IsFIN, IsRSV1-3, Opcode, IsMasked, SetIsMasked, UnsetIsMasked, "
+    "MaskBytes, SetFIN, SetRSV1-3, clearOpcode, SetOpcode, SetContinuation/Text/Binary/Close/Ping/Pong, extendedPayloadLengthOffset, "
+    "maskOffset, payloadOffset, setPayloadLength), codec/websocket/rfc6455.go (Opcode.IsContinuation..IsPong, IsReserved, IsControl, "
+    "ValidCloseCode, and every constant these functions mention, evaluated from the const declarations: bit masks, header/mask/max-header "
+    "lengths, opcodes, close codes, MaxControlFramePayloadLength) and util/bytes.go (ExtendSlice; generic in T, translated for bytes)",
+    "Sonic/Go/Bytes.lean (trusted reading of Go's slice semantics: a []byte value = backing array from the slice start to its capacity + "
+    "length; b[i] needs 0 <= i < len, b[lo:hi] needs 0 <= lo <= hi <= cap, a violated rule is a panic value; byte/uint16/uint64 = Lean "
+    "UInt8/16/64 with & | ^ &^ as &&& ||| ^^^ &&&~~~, int(uint64) as two's complement, uintN(int) as the low N bits; "
+    "binary.BigEndian.Uint16/Uint64/PutUint16/PutUint64 and append(b, make([]T, n)...) are prelude functions, i.e. the standard library "
+    "and the append built-in are read off their documentation, not translated; writes through the receiver slice are threaded as the "
+    "returned receiver (no other alias of the frame is written in the translated functions: read off the source by the translator, "
+    "which refuses element assignment to anything but the receiver)",
+]
